@@ -50,8 +50,11 @@ E2_NOTE = ("Bounded by the stated input sizes. Trusts the std contract models in
 check("C19", "other",
       "Partial: the two crash-prone computations of the pretty renderer — trailing-whitespace split index is a char "
       "boundary and exactly the start of the trailing whitespace (all UTF-8 strings <= 6/8 bytes; E2 + a Kani harness on "
-      "the compiled function), and line-number padding cannot underflow (all usize). The other renderers and 'every "
-      "difference is shown' are not claimed.",
+      "the compiled function), and line-number padding cannot underflow (all usize; whole render_malformed_output with symbolic "
+      "#expectations / #lines). Diff renderer: on one failed test case with an unmatched expectation and an unexpected line of 0..2/3 "
+      "arbitrary bytes (valid and invalid UTF-8) it returns a rendering with one `-` and one `+` line. Pretty and diff renderer on long "
+      "multi-byte lines (40..200 / 20..500 two-byte characters, both boundary parities) through their real text paths: no panic, both "
+      "differences shown in full. json / yaml (serde) and the summary sections are not claimed.",
       E2_NOTE, E2_TECH + "; Kani/CBMC harness as second engine", "E2+E1", "DESIGN.md §3 C19")
 
 check("C06", "other",
@@ -145,7 +148,9 @@ check("C17", "other",
       "Partial: the two places where to_yaml_one_liner writes user text. On the MIR of the renderer: an environment value is written "
       "as a properly escaped double-quoted YAML scalar (values <= 3/4 chars over {a, \", \\, :, space}) and wait.path is either quoted "
       "like that or a plain scalar that a flow mapping cannot mistake (paths <= 3/4 chars over {a / . , } \"}); witnesses are replayed "
-      "through the real serde_yaml round trip. Durations, the other keys, document front-matter and serde_yaml itself are not claimed.",
+      "through the real serde_yaml round trip. timeout and wait (all durations below 400 days, nanosecond resolution) are written as "
+      "humantime's rendering of exactly the configured duration (humantime::format_duration = injective black box; what scrut passes to it "
+      "is decided). The other keys, document front-matter, humantime and serde_yaml themselves are not claimed.",
       E2_NOTE, E2_TECH, "E2", "DESIGN.md §3 C17")
 
 check("C07", "other",
